@@ -8,10 +8,10 @@ open LyModel LyModel.Lyb LyModel.Tree LyModel.Generated LyModel.Generated.LybTre
 
 mutual
 /-- a data node the model covers: the constructor fits the schema node, a term value is the canonical form of a value of
-its type -/
+its type, its metadata are instances of known annotations with canonical values -/
 def WfNode (S : LSchema) : DNode → Prop
-  | .term sid _ _ v => S.isTermK sid = true ∧ CanonVal (S.ty sid) v
-  | .inner sid _ _ kids => S.isTermK sid = false ∧ (S.kind sid).isSome = true ∧ WfForest S kids
+  | .term sid _ m v => S.isTermK sid = true ∧ CanonVal (S.ty sid) v ∧ MetasOk S m
+  | .inner sid _ m kids => S.isTermK sid = false ∧ (S.kind sid).isSome = true ∧ WfForest S kids ∧ MetasOk S m
 def WfForest (S : LSchema) : List DNode → Prop
   | [] => True
   | n :: l => WfNode S n ∧ WfForest S l
@@ -67,14 +67,10 @@ theorem headerOps_head (o : POpts) (S : LSchema) (n : DNode) (ops : List Op) (h 
   simp only [headerOps] at h
   split at h
   · simp at h
-  · split at h
-    · obtain ⟨x, y, hx, _, rfl⟩ := cat_eq_some h
-      simp only [Option.some.injEq] at hx
-      subst hx
-      exact buc_wNum _ _ _ (by decide)
-    · simp only [Option.some.injEq] at h
-      subst h
-      exact buc_wNum _ _ _ (by decide)
+  · obtain ⟨x, y, hx, _, rfl⟩ := cat_eq_some h
+    simp only [Option.some.injEq] at hx
+    subst hx
+    exact buc_wNum _ _ _ (by decide)
 
 theorem nodeHeadOps_head (S : LSchema) (par : Option Nat) (fc : FrameCtx) (sid : Nat) (ops : List Op)
     (h : nodeHeadOps S par fc sid = some ops) (X : List Op) : bytesUntilClose 0 (ops ++ X) ≠ 0 := by
@@ -121,9 +117,9 @@ theorem nodeHead_at (P : Params) (hP : P.Ok) (d : Nat) (S : LSchema) (hname : S.
     exact ⟨r3, by simp only [pNodeHead, c1, e1, ↓reduceIte, e3], a3⟩
 
 section walk
-variable (P : Params) (hP : P.Ok) (o : POpts) (S : LSchema) (hwd : ∀ w, S.wd = some w → unpackRev (packRev w) = w)
+variable (P : Params) (hP : P.Ok) (o : POpts) (S : LSchema) (hann : AnnotsOk S)
   (hname : S.modName ≠ []) (hrev : unpackRev (packRev S.rev) = S.rev)
-include hP hwd hname hrev
+include hP hann hname hrev
 
 mutual
 theorem inst_rt : ∀ (n : DNode) (ops K : List Op) (d : Nat) (r : R) (fuel : Nat), instOps o S n = some ops → WfNode S n →
@@ -133,16 +129,14 @@ theorem inst_rt : ∀ (n : DNode) (ops K : List Op) (d : Nat) (r : R) (fuel : Na
     obtain ⟨x, y, hx, hy, rfl⟩ := cat_eq_some ho
     simp only [WfNode] at hwf
     rw [List.append_assoc] at hat
-    obtain ⟨r1, e1, a1, hm⟩ := header_at P hP d o S hwd _ x hx _ r hat
-    obtain ⟨r2, e2, a2⟩ := value_at P hP d (S.ty sid) v y hy hwf.2 K r1 a1
-    simp only [DNode.metas] at hm
-    subst hm
+    obtain ⟨r1, e1, a1⟩ := header_at P hP d o S hann (.term sid f m v) hwf.2.2 x hx _ r hat
+    obtain ⟨r2, e2, a2⟩ := value_at P hP d (S.ty sid) v y hy hwf.2.1 K r1 a1
     cases fuel with
     | zero => simp [costN] at hfuel
     | succ fuel =>
       refine ⟨r2, ?_, a2⟩
-      simp only [DNode.sid, pInst, e1, hwf.1, ↓reduceIte, e2, DNode.flags, viewNode]
-      split <;> rfl
+      simp only [DNode.sid, pInst, e1, hwf.1, ↓reduceIte, e2, DNode.flags, viewNode, printedMetas, DNode.metas]
+      split <;> simp
   | .inner sid f m kids, ops, K, d, r, fuel, ho, hwf, hat, hfuel => by
     simp only [instOps] at ho
     obtain ⟨x, y, hx, hy, rfl⟩ := cat_eq_some ho
@@ -152,9 +146,7 @@ theorem inst_rt : ∀ (n : DNode) (ops K : List Op) (d : Nat) (r : R) (fuel : Na
     subst hy1 hz2
     simp only [WfNode] at hwf
     simp only [List.append_assoc, List.cons_append, List.nil_append] at hat
-    obtain ⟨r1, e1, a1, hm⟩ := header_at P hP d o S hwd _ x hx _ r hat
-    simp only [DNode.metas] at hm
-    subst hm
+    obtain ⟨r1, e1, a1⟩ := header_at P hP d o S hann (.inner sid f m []) hwf.2.2.2 x hx _ r hat
     have a2 := at_start P hP d _ r1 a1
     simp only [costN] at hfuel
     cases fuel with
@@ -163,12 +155,12 @@ theorem inst_rt : ∀ (n : DNode) (ops K : List Op) (d : Nat) (r : R) (fuel : Na
       cases fuel with
       | zero => have := costL_pos kids; omega
       | succ fuel =>
-        obtain ⟨r3, e3, a3⟩ := sibs_none kids (some sid) z1 K d (rstart P r1) hz1 hwf.2.2 a2 fuel [] (by omega)
+        obtain ⟨r3, e3, a3⟩ := sibs_none kids (some sid) z1 K d (rstart P r1) hz1 hwf.2.2.1 a2 fuel [] (by omega)
         obtain ⟨r4, e4, a4⟩ := at_stop P d K r3 a3
         refine ⟨r4, ?_, a4⟩
-        have hnt : wdTagged o S (.inner sid f [] []) = false := by simp [wdTagged, DNode.isTerm]
+        have hnt : wdTagged o S (.inner sid f m []) = false := by simp [wdTagged, DNode.isTerm]
         simp only [DNode.sid, pInst, e1, hnt, hwf.1, Bool.false_eq_true, ↓reduceIte, hwf.2.1, pSibs, e3, e4, List.nil_append, DNode.flags,
-          viewNode]
+          viewNode, printedMetas, DNode.metas]
 termination_by n => (sizeOf n, 0)
 decreasing_by all_goals (simp_wf; first | (apply Prod.Lex.left; omega) | (apply Prod.Lex.left; simp; omega) | (apply Prod.Lex.right; omega) | (apply Prod.Lex.right; simp))
 
